@@ -216,7 +216,7 @@ func c09World(t *testing.T, p c09Params) rt.Result {
 func TestC09(t *testing.T) {
 	c := rt.Get()
 	stims := []string{"OPEN", "UPDATE", "KEEPALIVE", "FIN", "RST"}
-	seeds := c.N(40, 600)
+	seeds := c.N(120, 1500)
 	idx := 0
 	// the full (direction, state, stimulus) table, several segmentations / delays per cell
 	for _, dir := range allDirs {
@@ -238,7 +238,7 @@ func TestC09(t *testing.T) {
 	}
 	// received NOTIFICATIONs: all (code, subcode) pairs in the thorough tier
 	dlens := []int{0, 1, 2, 255, 4075}
-	n := c.N(6000, 65536*2)
+	n := c.N(16000, 65536*4)
 	for i := 0; i < n; i++ {
 		if !c.Mine("notif", i) {
 			continue
